@@ -116,3 +116,10 @@ CLAIMS['C09'] = dict(
           'and sorts chunk rows before writing; the in-memory size accounting is replace-aware and counts chunk rows per chunk. These hold for every table size, key distribution and flag combination. '
           'The interpolation search arithmetic is not decided.'),
     note='Padding fields (_unused, _buffer) may be skipped by readers that read the whole fixed-size record first.')
+CLAIMS['C07'] = dict(
+    technique='static analysis: reader/writer token-table agreement (width, repetition, field), sibling-implementation agreement over an abstracted step alphabet, def-use provenance of offsets and header fields',
+    text=('Decides necessary conditions of every round trip: the footer writer and its three readers walk the same token table (the async and boundaries-only readers a suffix), repeated groups are bounded by '
+          'their count token and the writer rejects count/list-length disagreement; the 8-byte chunk header is written in the declaration order of the packed struct the readers reinterpret; the synchronous and '
+          'asynchronous single- and multi-chunk decoders perform the same steps and the stream decoder is a thin wrapper; CasObject::serialize derives boundary offsets, slices, section offsets and the trailing '
+          'footer length consistently; serialize_chunk pairs the header scheme with the bytes written. Byte equality through lz4/bg4 for every input and bg4 pointer arithmetic are not decided (dynamic tools territory).'),
+    note='')
